@@ -303,6 +303,7 @@ type genCtx struct {
 	r     *prng.Rand
 	nvar  int
 	order int
+	unit  bool // directed scalar sets: operands of prescribed sign have magnitude 1
 }
 
 func (g *genCtx) jet(t gen.ElemType, v float64) gen.Jet {
@@ -314,9 +315,6 @@ func signedValue(t gen.ElemType, r *prng.Rand, s int) float64 {
 		return 0
 	}
 	v := math.Abs(t.NonZero(r))
-	if r.Intn(4) == 0 {
-		v = 1 // exponent / factor 1 is a branch point of its own (Pow)
-	}
 	return float64(s) * v
 }
 
@@ -324,6 +322,9 @@ func (g *genCtx) scalar(t gen.ElemType, sgn int, useSign bool) Arg {
 	v := t.Value(g.r)
 	if useSign {
 		v = signedValue(t, g.r, sgn)
+		if g.unit {
+			v = float64(sgn)
+		}
 	}
 	return Arg{Kind: "scalar", T: t, J: g.jet(t, v)}
 }
